@@ -543,6 +543,25 @@ def r12_weights_fallbacks_and_resets(idx, r):
                       "just built from are relabelled into another group")
 
 
+def r13_candidates_needed(idx, r):
+    """A group whose members are all ineligible has no candidate blocks.  Everything that derives a representative quantity from a collection
+    (the representative block, the average nuclide temperatures - for the Median representation: the median block) is computed only for
+    collections that HAVE candidates: the loops over the groups in the manager agree on that guard."""
+    c = idx.cls(M + ".CrossSectionGroupManager")
+    n = 0
+    for name, f in c.methods.items():
+        for lp in [x for x in walk_local(f.node) if isinstance(x, ast.For) and isinstance(x.iter, ast.Call) and call_attr(x.iter) == "items" and isinstance(x.target, ast.Tuple) and len(x.target.elts) == 2]:
+            coll = norm(lp.target.elts[1])
+            for call in [y for y in ast.walk(lp) if isinstance(y, ast.Call) and call_attr(y) in ("calcAvgNuclideTemperatures", "createRepresentativeBlock") and norm(y.func.value) == coll]:
+                n += 1
+                env = single_assign_env(f.node)
+                conds = [norm(propagate(t, env)) for t, p in path_conditions(ast.Module(body=lp.body, type_ignores=[]), call)]
+                r.require(any("getCandidateBlocks" in c_ for c_ in conds), f"{name}:{call_attr(call)}:only-with-candidates", f, node=call,
+                          msg=f"`{norm(call)}` runs for every group, also one whose blocks are all ineligible: the Median representation then indexes an empty list (IndexError) where its sibling loop skips the group")
+    if n < 2:
+        raise AnalysisError(f"only {n} per-group derivations found in CrossSectionGroupManager")
+
+
 def run(idx, chk):
     chk.explanation = (
         "C20: every weighted mean in the block-collection classes is typed with a role generator W for the weights: the result must be of degree "
@@ -575,3 +594,5 @@ def run(idx, chk):
                  necessary="representative densities are the weight-normalised mean of the members; a nuclide's temperature is averaged over the components that hold it")
     chk.run_rule("R20.12", "component-temperature weights per unit height; settings fall-back by lowest environment group; unrepresented-ID list rebuilt per call", lambda r: r12_weights_fallbacks_and_resets(idx, r), floor=3,
                  necessary="representative temperatures are mass-weighted means; every block ends in the group its (type, environment) selects")
+    chk.run_rule("R20.13", "per-group derivations (representative block, nuclide temperatures) run only for groups that have candidate blocks", lambda r: r13_candidates_needed(idx, r), floor=2,
+                 necessary="group assignment is a total function: a group without eligible members is handled, not crashed on")
